@@ -281,8 +281,9 @@ class PureScheduler:                                    # pylint: disable=r0902
                           "WARNING: job {} in {} had {} requirements removed"
                           .format(job, container_label, before - after))
             # recursively scan nested schedulers
+            # sanitize() returns True when nothing had to be changed
             if isinstance(job, PureScheduler):
-                changes = job.sanitize(verbose) or changes
+                changes = (not job.sanitize(verbose)) or changes
         return not changes
 
     ####################
